@@ -324,15 +324,10 @@ theorem extendTo_eq (cm : CompletedMarker) (m : Marker) (s : P) :
             · simp only [h2, if_false]; rfl
 
 theorem atTs_eq (ts : TokenSet) (s : P) :
-    atTs ts s = if (s.kindAt s.pos).toNat ≥ 128 then .error (.panic "TokenSet::mask shift overflow")
-      else .ok (ts.contains (s.kindAt s.pos), s) := by
+    atTs ts s = .ok (decide ((s.kindAt s.pos).toNat < 128) && ts.contains (s.kindAt s.pos), s) := by
   unfold atTs
   rw [G.bind_apply, current_eq]
-  simp only
-  unfold TokenSet.containsG
-  by_cases h : (s.kindAt s.pos).toNat ≥ 128
-  · simp only [h, if_true]; rfl
-  · simp only [h, if_false]; rfl
+  rfl
 
 /-- lifting of `Input::is_joint` into a parser result -/
 def P.jointRes (s : P) (i : Nat) : Except Outcome (Bool × P) :=
